@@ -62,6 +62,9 @@ def run(res, proof):
     for _ in range(60 if quick else 1500):
         structs.append(gen.random_structure(rng, rng.randint(4, 14 if quick else 60), nstrands=rng.randint(2, 6)))
     res.dist['structures'] = len(structs)
+    by_sig = {}
+    for t in structs:
+        by_sig.setdefault(tuple(len(x) for x in t.split('+')), []).append(t)
     lines, impl = [], []
     pre = ['reset', 'mk.dom\t0\ta\t5\t-\t-', 'mk.dom\t0\tb\t5\t-\t-', 'mk.dom\t0\tc\t5\t-\t-']
     hmap = {'a': 0, 'b': 1, 'c': 2}
@@ -136,6 +139,50 @@ def run(res, proof):
                 elif o1.startswith('ret') and equiv and not o2.startswith('err SingletonError existing=h3'):
                     res.violation('equivalent-not-identified', {'history': ['P=' + ' '.join(names), 'Q=' + ' '.join(other), s]}, o2, 'err SingletonError existing=h3')
                 res.count('pair_equivalent' if equiv else 'pair_inequivalent')
+            # the same complex in another class of the kind: own registry, same canonical form, equal and hash-equal objects,
+            # whatever rotation each class saw first and whatever lives in the other class
+            if n >= 2 and (len(s) <= 6 or rng.random() < 0.3):
+                k0, k1 = rng.randrange(n), rng.randrange(n)
+                cls = rng.choice((1, 2, 3))
+                hl = list(pre)
+                a, b = rots[k0]
+                hl.append('mk.cplx\t0\tX\t-\t%s\t%s' % (seq_handles(a, hmap), ''.join(b)))
+                a, b = rots[k1]
+                hl.append('mk.cplx\t%d\tX\t-\t%s\t%s' % (cls, seq_handles(a, hmap), ''.join(b)))
+                for k in range(n):
+                    a, b = rots[k]
+                    hl.append('mk.cplx\t%d\tX\t-\t%s\t%s' % (cls, seq_handles(a, hmap), ''.join(b)))
+                hl.append('cmp\th3\th4')
+                hl.append('names')
+                ho = [iw.do(l) for l in hl]
+                want = 'ret h4 new canon=%s/%s' % (' '.join(want_canon[0]), ''.join(want_canon[1]))
+                if ho[4].startswith('ret h3 new') and not ho[5].startswith(want):
+                    res.violation('canonical-form-not-minimal:other-class', {'history': list(hl)}, ho[5], want)
+                for k in range(n):
+                    if ho[5].startswith('ret h4 new') and not ho[6 + k].startswith('ret h4 old'):
+                        res.violation('rotation-not-identified:other-class', {'history': list(hl[:7 + k])}, ho[6 + k], 'ret h4 old')
+                if 3 in iw.held and 4 in iw.held:
+                    p, q = iw.held[3], iw.held[4]
+                    if not (p == q) or hash(p) != hash(q) or p.canonical_form != q.canonical_form:
+                        res.violation('same-complex-in-two-classes-differs', {'history': list(hl)}, 'canonical forms %r / %r, ==: %r' % (p.canonical_form, q.canonical_form, p == q),
+                                      'equal canonical forms, ==, equal hashes')
+                    del p, q
+                res.count('other_class_scenarios')
+                lines += hl; impl += ho
+            # the same strands in the same order with ANOTHER structure, requested under the live complex's name, is not that
+            # complex: the request is refused (it is accepted only if the two descriptions are rotations of each other)
+            sig = tuple(len(x) for x in s.split('+'))
+            alts = [t for t in by_sig.get(sig, ()) if t != s]
+            if alts and (len(s) <= 6 or rng.random() < 0.3):
+                s2 = rng.choice(alts)
+                hl = list(pre) + ['mk.cplx\t0\tX\t-\t%s\t%s' % (seq_handles(names, hmap), s),
+                                  'mk.cplx\t0\tX\t-\t%s\t%s' % (seq_handles(names, hmap), s2), 'names']
+                ho = [iw.do(l) for l in hl]
+                same = (tuple(names), tuple(s2)) in set(rots)
+                if ho[4].startswith('ret h3 new') and not same and not ho[5].startswith('err SingletonError'):
+                    res.violation('other-structure-accepted-under-live-name', {'history': list(hl)}, ho[5], 'err SingletonError (a different complex under a taken name)')
+                res.count('other_structure_same_name')
+                lines += hl; impl += ho
     iw.reset()
     res.rule = ('every well-formed structure with non-empty strands up to %d positions / 4 strands (quick: a 35%% sample above 4 '
                 'characters) labelled over alphabets of 1, 2 and 3 names (all labellings when few, sampled otherwise), every rotation '
